@@ -138,6 +138,191 @@ if not ranges:
     raise ValueError("no close code is accepted")
 vals["close_code_valid_ranges"] = ranges
 
+# --- which close codes the library itself puts into a close frame ------------------------------------------------
+# Every call of _fail_connection / sendCloseFrame / sendClose anywhere in the library (tests excluded), found with the
+# interpreter's own parser.  The code argument must be: absent (-> the callee's default), None, an integer literal,
+# a CLOSE_STATUS_CODE_* constant (resolved on the imported class), the peer's accepted code (self.remoteCloseCode: the
+# echo in onCloseFrame) or a parameter of the enclosing function -- that function is then swept as well (fixpoint),
+# e.g. _bailout(code) of the WAMP transport.  Anything else: fail closed.
+_pkg = os.path.dirname(os.path.realpath(autobahn.__file__))
+_trees = {}
+for _root, _dirs, _files in os.walk(_pkg):
+    _dirs[:] = sorted(d for d in _dirs if d not in ("test", "__pycache__"))
+    for _f in sorted(_files):
+        if _f.endswith(".py") and not _f.startswith("test_"):
+            _path = os.path.join(_root, _f)
+            with open(_path, "rb") as _fh:
+                _trees[os.path.relpath(_path, _pkg)] = ast.parse(_fh.read(), _path)
+
+
+def _params(fn):
+    a = fn.args
+    names = [x.arg for x in a.posonlyargs + a.args]
+    if names and names[0] in ("self", "cls"):
+        names = names[1:]
+    return names
+
+
+def _defaults(fn):
+    """parameter name -> default expression (self excluded)"""
+    a = fn.args
+    pos = a.posonlyargs + a.args
+    d = dict(zip([x.arg for x in pos[len(pos) - len(a.defaults):]], a.defaults))
+    d.update({x.arg: v for x, v in zip(a.kwonlyargs, a.kw_defaults) if v is not None})
+    return d
+
+
+def _const_code(e):
+    """("none",) | ("code", int) | None if e is not a constant close code"""
+    if isinstance(e, ast.Constant):
+        if e.value is None:
+            return ("none",)
+        if type(e.value) is int:
+            return ("code", need_int("close code literal", e.value, 0, 65536))
+        return None
+    nm = e.attr if isinstance(e, ast.Attribute) else e.id if isinstance(e, ast.Name) else None
+    if nm and nm.startswith("CLOSE_STATUS_CODE_"):
+        return ("code", need_int(nm, getattr(WP, nm), 0, 65536))
+    return None
+
+
+_sinks = {"_fail_connection": "code", "sendCloseFrame": "code", "sendClose": "code"}     # callee -> name of its code parameter
+_sites = {}
+for _round in range(10):
+    _grew = False
+    _defs = {}
+    for _rel, _tree in _trees.items():
+        for n in ast.walk(_tree):
+            if isinstance(n, (ast.FunctionDef, ast.AsyncFunctionDef)) and n.name in _sinks:
+                _defs.setdefault(n.name, []).append((_rel, n))
+    for nm, pn in _sinks.items():
+        if not _defs.get(nm):
+            raise ValueError(f"close-code sweep: no definition of {nm} found")
+        for _rel, fn in _defs[nm]:
+            if pn not in _params(fn):
+                raise ValueError(f"close-code sweep: {_rel}:{fn.lineno} {nm} has no parameter {pn!r}")
+
+    def _visit(rel, node, stack):
+        global _grew
+        for ch in ast.iter_child_nodes(node):
+            if isinstance(ch, (ast.FunctionDef, ast.AsyncFunctionDef, ast.Lambda)):
+                _visit(rel, ch, stack + [ch])
+                continue
+            if isinstance(ch, ast.Call):
+                f = ch.func
+                callee = f.attr if isinstance(f, ast.Attribute) else f.id if isinstance(f, ast.Name) else None
+                if callee in _sinks and callee in _defs:      # (a sink found in this round is swept in the next one)
+                    pn = _sinks[callee]
+                    if any(isinstance(a, ast.Starred) for a in ch.args) or any(k.arg is None for k in ch.keywords):
+                        raise ValueError(f"close-code sweep: {rel}:{ch.lineno} {callee}(*args/**kw)")
+                    vals_here = []
+                    for drel, dfn in _defs[callee]:
+                        idx = _params(dfn).index(pn)
+                        kw = [k.value for k in ch.keywords if k.arg == pn]
+                        e = kw[0] if kw else ch.args[idx] if idx < len(ch.args) else None
+                        if e is None:
+                            e = _defaults(dfn).get(pn)
+                            if e is None:
+                                raise ValueError(f"close-code sweep: {rel}:{ch.lineno} {callee}() without a code and {drel}:{dfn.lineno} has no default")
+                            how = "default of " + callee
+                        else:
+                            how = "argument"
+                        c = _const_code(e)
+                        if c is None and isinstance(e, ast.Name):
+                            encl = [fn for fn in stack if not isinstance(fn, ast.Lambda) and e.id in _params(fn)]
+                            if encl:
+                                fn = encl[-1]
+                                if _sinks.get(fn.name, e.id) != e.id:
+                                    raise ValueError(f"close-code sweep: {fn.name} passes on two different parameters")
+                                if fn.name not in _sinks:
+                                    _sinks[fn.name] = e.id
+                                    _grew = True
+                                c = ("param", fn.name)
+                        if c is None and isinstance(e, ast.Attribute) and isinstance(e.value, ast.Name) and e.value.id == "self" and e.attr == "remoteCloseCode":
+                            c = ("echo",)
+                        if c is None:
+                            raise ValueError(f"close-code sweep: {rel}:{ch.lineno} {callee}(... {ast.unparse(e)} ...): not a constant close code")
+                        vals_here.append(c + (how,))
+                    if len({v[:2] for v in vals_here}) != 1:
+                        raise ValueError(f"close-code sweep: {rel}:{ch.lineno} {callee}: ambiguous {vals_here}")
+                    names = [getattr(fn, "name", "<lambda>") for fn in stack]
+                    _sites[(rel, ch.lineno, ch.col_offset)] = dict(file=rel, line=ch.lineno, callee=callee, within=".".join(names), value=list(vals_here[0]))
+            _visit(rel, ch, stack)
+
+    _sites.clear()
+    for _rel, _tree in _trees.items():
+        _visit(_rel, _tree, [])
+    if not _grew:
+        break
+else:
+    raise ValueError("close-code sweep: no fixpoint")
+_site_list = [_sites[k] for k in sorted(_sites)]
+for nm, pn in sorted(_sinks.items()):
+    for _rel, fn in _defs[nm]:
+        e = _defaults(fn).get(pn)
+        c = _const_code(e) if e is not None else None
+        if e is not None and c is None:
+            raise ValueError(f"close-code sweep: {_rel}:{fn.lineno} default of {nm}({pn}) is not a constant close code")
+        if c and c[0] == "code":
+            _site_list.append(dict(file=_rel, line=fn.lineno, callee=nm, within=nm, value=[c[0], c[1], "declared default"]))
+_lib_codes = sorted({s["value"][1] for s in _site_list if s["value"][0] == "code"})
+if not _lib_codes:
+    raise ValueError("close-code sweep: no constant close code found")
+for must in ("_protocol_violation", "_invalid_payload", "_max_message_size_exceeded", "on_connect_failed", "onCloseFrame"):
+    if not any(must in s["within"].split(".") for s in _site_list):
+        raise ValueError(f"close-code sweep: no call site inside {must}")
+_oc = [s for s in _site_list if "on_connect_failed" in s["within"].split(".") and s["file"] == os.path.join("websocket", "protocol.py")]
+if len(_oc) != 1 or _oc[0]["value"][0] != "code" or _oc[0]["callee"] != "_fail_connection":
+    raise ValueError(f"client on_connect_failed: expected exactly one _fail_connection(<constant>, ...), found {_oc}")
+vals["code_onconnect_failed"] = _oc[0]["value"][1]
+vals["library_close_codes"] = _lib_codes
+vals["library_close_code_sites"] = _site_list
+
+# --- the ping / pong payload limit and the configurable autoPingSize range ----------------------------------------
+# probed on the real objects: sendPing / sendPong on an OPEN protocol whose sendFrame is a recorder; setProtocolOptions
+# for every size 0..300.  Both accepted sets must be intervals; the model's auto ping never fails, which is sound iff
+# every configurable size is sendable (theorem C17_auto_ping_size_sendable over these constants).
+def _probe_ctl(method):
+    okset = []
+    for n in range(0, 300):
+        p = P.WebSocketServerProtocol()
+        p.factory = sf
+        p.state = WP.STATE_OPEN
+        sent = []
+        p.sendFrame = lambda **kw: sent.append(kw)
+        try:
+            getattr(p, method)(b"x" * n)
+        except Exception:
+            if sent:
+                raise ValueError(f"{method}({n} octets) raised after writing")
+            continue
+        if len(sent) != 1 or len(sent[0].get("payload") or b"") != n:
+            raise ValueError(f"{method}({n} octets): unexpected frame {sent!r}")
+        okset.append(n)
+    if not okset or okset != list(range(0, okset[-1] + 1)):
+        raise ValueError(f"{method}: accepted payload lengths are not an interval from 0: {okset[:5]}..{okset[-5:]}")
+    return okset[-1]
+
+
+vals["ping_payload_max"] = _probe_ctl("sendPing")
+vals["pong_payload_max"] = _probe_ctl("sendPong")
+_sizes = []
+for n in range(0, 301):
+    for tag, fac in (("server", P.WebSocketServerFactory), ("client", P.WebSocketClientFactory)):
+        f = fac("ws://localhost:9000")
+        try:
+            f.setProtocolOptions(autoPingSize=n)
+            ok = f.autoPingSize == n
+        except AssertionError:
+            ok = False
+        _sizes.append((n, tag, ok))
+_acc = sorted({n for n, t, ok in _sizes if ok})
+if {n for n, t, ok in _sizes if ok and t == "server"} != {n for n, t, ok in _sizes if ok and t == "client"}:
+    raise ValueError("autoPingSize: server and client factories accept different sizes")
+if not _acc or _acc != list(range(_acc[0], _acc[-1] + 1)) or _acc[-1] >= 300:
+    raise ValueError(f"autoPingSize: accepted sizes are not a bounded interval: {_acc[:3]}..{_acc[-3:]}")
+vals["auto_ping_size_min"], vals["auto_ping_size_max"] = _acc[0], _acc[-1]
+
 # the batched timer's quantisation formula is control flow in txaio (modelled by hand in Model/WsConn.v: quant);
 # pin the version-sensitive facts it relies on by probing the real object on a fake clock
 import txaio._common as C
@@ -163,9 +348,11 @@ L = ["(* GENERATED by translators/wsconn_consts.py from the imported autobahn.we
 L.append("Definition close_codes_allowed : list N := [%s]." % "; ".join(str(c) for c in vals["close_codes_allowed"]))
 L.append("(* maximal intervals of close codes that onCloseFrame does not reject (its own predicate, evaluated for 0..65535; >= 65536 rejected) *)")
 L.append("Definition close_code_valid_ranges : list (N * N) := [%s]." % "; ".join(f"({a}, {b})" for a, b in vals["close_code_valid_ranges"]))
+L.append("(* every constant close code at a call site of _fail_connection / sendCloseFrame / sendClose (and of the functions passing a code on to them) in the library *)")
+L.append("Definition library_close_codes : list N := [%s]." % "; ".join(str(c) for c in vals["library_close_codes"]))
 for k in sorted(vals):
     v = vals[k]
-    if k in ("close_codes_allowed", "close_code_valid_ranges"):
+    if k in ("close_codes_allowed", "close_code_valid_ranges", "library_close_codes", "library_close_code_sites"):
         continue
     if type(v) is bool:
         L.append(f"Definition {k} : bool := {b(v)}.")
